@@ -124,7 +124,14 @@ def handle (w : World) (line : String) : World × String :=
     | some ob, some dst, some d, some nOut, some ans =>
       let route : Str → Option Nat := fun _ => rt.toNat?
       let settle : World → Option Str → World := fun w pr => (afterProbe w pr ans).1
-      let (w2, outs) := routeDial w ob dst d route nOut (fail == "1") settle
+      -- fail = 2: the node refuses the first dial with an error that is NOT network-unreachable /
+      -- address-not-suitable: routeDial gives up after that one dial (no retry, no fallback)
+      let (w2, outs) :=
+        if fail == "2" then
+          let (wr, o1) := chooseProxyDialer w ob dst d route nOut
+          let wr := settle wr o1.probeReq
+          (wr, if o1.outbound.isNone then [o1] else [o1, { o1 with outbound := none }])
+        else routeDial w ob dst d route nOut (fail == "1") settle
       -- did any attempt make the probe call a resolver?
       let (wa, o1) := chooseProxyDialer w ob dst d route nOut
       let p1 := (afterProbe wa o1.probeReq ans).2 > 0
@@ -139,7 +146,9 @@ def handle (w : World) (line : String) : World × String :=
         | none => "err"
         | some ob =>
           s!"ob={ob} t={hexOfStr io.2.target}" ++ (if io.1 + 1 = n then s!" ip={boolStr io.2.dialIp}" else "")
-      (w2, " ; ".intercalate ((List.range n).zip outs |>.map fmt) ++ s!" probe={boolStr (p1 || p2)}")
+      let isErr := match outs.getLast? with | some o => o.outbound.isNone | none => true
+      -- whether a probe was started is not compared when the dial fails anyway
+      (w2, " ; ".intercalate ((List.range n).zip outs |>.map fmt) ++ (if isErr then "" else s!" probe={boolStr (p1 || p2)}"))
     | _, _, _, _, _ => (w, "bad-op")
   | ["norm", r] =>
     match strOfHex? r with
@@ -193,6 +202,23 @@ def handle (w : World) (line : String) : World × String :=
       (w, s!"bounded={boolStr r.2.1} clears={r.2.2}")
     | none => (w, "bad-op")
   | ["reset"] => ({}, "ok")
+  | ["reset", negttl, minttl] =>
+    -- tunables of the running code that the property does not fix
+    match negttl.toNat?, minttl.toNat? with
+    | some n, some m => ({ negTtl := (n : Int), minTtl := m }, "ok")
+    | _, _ => (w, "bad-op")
+  | "pick" :: ob :: dst :: d :: rt :: nOut :: _meta :: ans =>
+    -- chooseProxyDialer alone (what the UDP path uses: the datagram target stays the IP, the outbound
+    -- and the strict-family flag come from here)
+    match ob.toNat?, parseDst? dst, strOfHex? d, nOut.toNat?, ans.mapM parseAns? with
+    | some ob, some dst, some d, some nOut, some ans =>
+      let route : Str → Option Nat := fun _ => rt.toNat?
+      let (w1, o) := chooseProxyDialer w ob dst d route nOut
+      let (w2, calls) := afterProbe w1 o.probeReq ans
+      match o.outbound with
+      | none => (w2, "err")
+      | some ob => (w2, s!"ob={ob} t={hexOfStr o.target} ip={boolStr o.dialIp} probe={boolStr (calls > 0)}")
+    | _, _, _, _, _ => (w, "bad-op")
   | _ => (w, "bad-op")
 
 def main : IO Unit := lineLoopS ({} : World) handle
